@@ -10,6 +10,12 @@ R3  always closed: _handle_websocket closes after the responder, every
 R4  close-code validation (partition of the integer line by the folded
     comparisons of close()) and the spec-version gate of the close reason.
 R5  payload types.
+R6  the receive pump raises ``client_disconnected`` (what ``_send``/``closed``/``ready`` consult) before its next
+    suspension point after pulling the disconnect event (function lives in c18.py: same pump context as C18 R3).
+
+R1 also decides, for accept()/close(): the write of ACCEPTED/CLOSED is not reachable through an exceptional edge
+out of the send of the accept/close event.  ``r3_session_paths`` (the "a completed close() on every path that ends
+a session" half of R3) is registered under C18 as its R5.
 
 Declared anchors (renaming one gives exit 2, never exit 1): class
 ``falcon.asgi.ws.WebSocket`` with its public operations, the private enum
